@@ -54,6 +54,9 @@ type Router struct {
 	sock          knxnet.Socket
 	config        RouterConfig
 	inbound       chan cemi.Message
+	inboundMu     sync.Mutex
+	inboundQueue  []cemi.Message
+	inboundBusy   bool
 	sendMu        sync.Mutex
 	retainer      *list.List
 	postSendPause time.Duration
@@ -87,20 +90,51 @@ func (router *Router) resendLost(count uint16) {
 	go router.sendMultiple(messages)
 }
 
-// pushInbound sends the message through the inbound channel. If the sending blocks, it will launch
-// a goroutine which will do the sending.
+// pushInbound hands the message to the client without blocking the caller. Messages which cannot
+// be taken right away are queued and delivered by a single goroutine, so they reach the client in
+// the order in which they were pushed.
 func (router *Router) pushInbound(msg cemi.Message) {
-	select {
-	case router.inbound <- msg:
+	router.inboundMu.Lock()
+	defer router.inboundMu.Unlock()
 
-	default:
-		go func() {
-			// Since this goroutine decouples from the server goroutine, it might try to send when
-			// the server closed the inbound channel. Sending to a closed channel will panic. But we
-			// don't care, because cool guys don't look at explosions.
-			defer func() { recover() }()
-			router.inbound <- msg
-		}()
+	if !router.inboundBusy {
+		select {
+		case router.inbound <- msg:
+			return
+
+		default:
+		}
+	}
+
+	router.inboundQueue = append(router.inboundQueue, msg)
+
+	if !router.inboundBusy {
+		router.inboundBusy = true
+		go router.drainInbound()
+	}
+}
+
+// drainInbound delivers the queued messages one after the other.
+func (router *Router) drainInbound() {
+	// Since this goroutine decouples from the server goroutine, it might try to send when
+	// the server closed the inbound channel. Sending to a closed channel will panic. But we
+	// don't care, because cool guys don't look at explosions.
+	defer func() { recover() }()
+
+	for {
+		router.inboundMu.Lock()
+
+		if len(router.inboundQueue) == 0 {
+			router.inboundBusy = false
+			router.inboundMu.Unlock()
+			return
+		}
+
+		msg := router.inboundQueue[0]
+		router.inboundQueue = router.inboundQueue[1:]
+		router.inboundMu.Unlock()
+
+		router.inbound <- msg
 	}
 }
 
